@@ -156,6 +156,7 @@ type c29Out struct {
 	Err      string // "" | "match" | "dup": the documented error that must occur
 	MayErr   bool   // duplicates in a match group that has no partner: an error is acceptable, so is the natural result
 	Unstable bool   // a comparison / selection sits within rounding distance of its threshold
+	ZeroTie  bool   // min / max over a group holding +0 and -0 returned a zero: either sign is right, a parent may tell them apart
 	NameFree bool   // comparison filter with on(...) and group_left/right: the docs say the name is dropped "if on is used", the tests keep the many side's name; either is accepted
 	// for checks of order-free selections
 	Free *c29Free
@@ -349,7 +350,7 @@ func (e *c29Eval) eval(n *c29Node) c29Out {
 		}
 		out := e.agg(n, in.V)
 		out.MayErr = out.MayErr || in.MayErr
-		out.Unstable = out.Unstable || in.Unstable || in.Free != nil
+		out.Unstable = out.Unstable || in.Unstable || in.Free != nil || in.ZeroTie
 		return out
 	case "bin":
 		a, b := e.eval(n.A), e.eval(n.B)
@@ -387,7 +388,7 @@ func (e *c29Eval) eval(n *c29Node) c29Out {
 			out = e.vecVec(n, a.V, b.V)
 		}
 		out.MayErr = out.MayErr || a.MayErr || b.MayErr
-		out.Unstable = out.Unstable || a.Unstable || b.Unstable || a.Free != nil || b.Free != nil
+		out.Unstable = out.Unstable || a.Unstable || b.Unstable || a.Free != nil || b.Free != nil || a.ZeroTie || b.ZeroTie
 		return out
 	}
 	panic("kind " + n.Kind)
@@ -888,6 +889,21 @@ func (e *c29Eval) agg(n *c29Node, in []c29V) c29Out {
 					if !math.IsNaN(f) || math.IsNaN(best) {
 						best = f
 					}
+				}
+			}
+			if best == 0 {
+				pos, neg := false, false
+				for _, f := range fs {
+					if f == 0 {
+						if math.Signbit(f) {
+							neg = true
+						} else {
+							pos = true
+						}
+					}
+				}
+				if pos && neg {
+					out.ZeroTie = true
 				}
 			}
 			emit(best)
